@@ -1093,10 +1093,22 @@ def _find_inner_inv(vc, v):
     return vc.forall(0, v["$k"], lambda m: hay[i - m] == nd[n - 1 - m])
 
 
+def _find_inner_head(vc, v, entering):
+    """at the exit of the inner loop the invariant is instantiated at the harness' Skolem
+    position (checked, not assumed: it is an instance of the invariant) so that the
+    occurrence claim does not depend on the solver's quantifier heuristics"""
+    if not entering:
+        s = vc.stashed("find.skolem")
+        if s is not None:
+            hay, nd, i, n = v["haystack"], v["needle"], v["i"], v["n"]
+            m = n - 1 - s
+            vc.check(vc.raw(lambda: not (0 <= m and m < v["$k"]) or hay[i - m] == nd[n - 1 - m]), "_find.loop1.inv_instance")
+
+
 LOOPS.update(
     {
         ("someip.header._find", 0): {"havoc": {"i": _gen_int}, "inv": _find_outer_inv, "variant": _find_outer_variant},
-        ("someip.header._find", 1): {"inv": _find_inner_inv},
+        ("someip.header._find", 1): {"inv": _find_inner_inv, "head": _find_inner_head},
     }
 )
 
@@ -1108,13 +1120,16 @@ def ob_find_sound(vc):
     0 <= r, r + len(needle) <= len(haystack), haystack[r : r + len(needle)] == needle."""
     hay = vc.opaque_seq("haystack", "elem")
     nd = vc.opaque_seq("needle", "elem")
+    s = vc.int("position", 0, None)  # Skolem position inside the needle
+    vc.stash("find.skolem", s)
     o = vc.outcome(vc.body(H._find), hay, nd)
     vc.check(o.kind != "raise", "_find.no_exception")
     if o.kind == "ret" and o.value is not None:
         vc.cover("found")
         r = o.value
         vc.check(r >= 0 and r + len(nd) <= len(hay), "_find.sound.window_inside_haystack")
-        vc.check(vc.forall(0, len(nd), lambda m: hay[r + m] == nd[m]), "_find.sound.occurrence")
+        if s < len(nd):
+            vc.check(hay[r + s] == nd[s], "_find.sound.occurrence")
     if o.kind == "ret" and o.value is None:
         vc.cover("not-found")
 
